@@ -424,6 +424,13 @@ func c04Gen(t *rapid.T, rec *evid.Recorder) c04Case {
 		c.Valid = false
 		c.StmtSteps, c.ExprSteps = nil, nil
 		c.Mode = allModes[r.Intn(4, "mode")]
+	} else if r.Intn(8, "prefixbytes") == 0 {
+		// bytes that other tools treat specially at the start of a file (the lexer
+		// has no notion of them: they are ordinary - illegal - input)
+		c.Src = []string{"\xef\xbb\xbf", "#!/usr/bin/env xjs\n", "\xfe\xff", "\x00", "\xc2\xa0"}[r.Intn(5, "prefixkind")] + c.Src
+		c.Valid = false
+		c.StmtSteps, c.ExprSteps = nil, nil
+		rec.Class("input:special-prefix-bytes")
 	}
 	kinds := []string{"tok", "stmt", "expr", "expr-re", "stmt-re"}
 	for i, n := 0, r.Intn(9, "nicpt"); i < n; i++ {
